@@ -75,6 +75,10 @@ type w7Ops struct {
 	// NoWatcher: the inotify instance cannot be created (EMFILE); configuration changes cannot be noticed then (the
 	// user does not edit anything in these runs), everything else has to work as usual
 	NoWatcher bool `json:"no_watcher,omitempty"`
+	// ShutdownSaves: the user saves a configuration this many times right before the application is shut down
+	// (ShutdownGapMs later): notifications may be pending, a reload may be under way when the context ends
+	ShutdownSaves int `json:"shutdown_saves,omitempty"`
+	ShutdownGapMs int `json:"shutdown_gap_ms,omitempty"`
 }
 
 const keyA = 30 // KEY_A
@@ -113,6 +117,10 @@ func genW7(r *simrt.Rng) *w7Ops {
 	}
 	o.ShutdownHeld = r.Chance(0.3)
 	o.NoWatcher = r.Chance(0.05)
+	if !o.NoWatcher && r.Chance(0.3) {
+		o.ShutdownSaves = r.Range(1, 3)
+		o.ShutdownGapMs = []int{0, 1, 5, 40, 300}[r.Intn(5)]
+	}
 	// the factory default of every class in use always exists at the start; the other three ranks per device at random
 	for _, gp := range []bool{false, true} {
 		used := false
@@ -225,6 +233,11 @@ func shrinkW7(raw json.RawMessage) []json.RawMessage {
 	if o.ShutdownHeld {
 		c := o
 		c.ShutdownHeld = false
+		emit(c)
+	}
+	if o.ShutdownSaves > 0 {
+		c := o
+		c.ShutdownSaves--
 		emit(c)
 	}
 	return out
@@ -847,6 +860,15 @@ func runW7(t *testing.T, job *worlds.Job, seed uint64, rp *worlds.Replay) worlds
 				break
 			}
 			simrt.Sleep(10 * time.Millisecond)
+		}
+		if ops.ShutdownSaves > 0 && len(files) > 0 && !failed() {
+			// saves right before the shutdown: the same content again, nothing about the configuration changes
+			for k := 0; k < ops.ShutdownSaves; k++ {
+				fi := k % len(files)
+				writeFile(files[fi].Dir+"/"+files[fi].Name, w7Content(&w7Ops{Files: files}, fi, version[fi], brokenNow[fi]), 1, false)
+			}
+			ro.Faults["save_right_before_shutdown"]++
+			simrt.Sleep(time.Duration(ops.ShutdownGapMs) * time.Millisecond)
 		}
 		cancel()
 		deadline := simrt.Now() + 10*time.Second
